@@ -70,13 +70,45 @@ SYMMETRIC = lambda B: Dyn(B, HALF, HALF, name=f"sym-B{B}")  # noqa: E731
 DRIFTED = lambda B: Dyn(B, Fraction(7, 8), Fraction(1, 8), name=f"drift-B{B}")  # noqa: E731
 
 
+# The origin of the order-parameter axis is arbitrary.  With SHIFT[0] = s the real code sees
+# order = site + s, interfaces k + 0.5 + s, cap + s, lambda_-1 + s; the harness and the reference keep
+# thinking in sites.  Shifts that put an interface or the cap at exactly 0.0, or everything below zero,
+# expose code that treats 0.0 as 'absent' or assumes positive values.
+SHIFT = [0.0]
+
+
+class shifted:
+    def __init__(self, s):
+        self.s = float(s)
+
+    def __enter__(self):
+        self.old = SHIFT[0]
+        SHIFT[0] = self.s
+        return self
+
+    def __exit__(self, *a):
+        SHIFT[0] = self.old
+        return False
+
+
+def o(x):
+    """Site coordinate -> order-parameter value handed to the real code (None/False pass through)."""
+    if x is None or x is False:
+        return x
+    return x + SHIFT[0]
+
+
+def site_of(order):
+    return int(round(float(order) - SHIFT[0]))
+
+
 def interfaces(B):
-    return [k + 0.5 for k in range(B)]
+    return [k + 0.5 + SHIFT[0] for k in range(B)]
 
 
 def mk_system(x, t=0, config=("init", 0), vel_rev=False):
     s = System()
-    s.order = [float(x)]
+    s.order = [float(x) + SHIFT[0]]
     s.config = config
     s.vel_rev = vel_rev
     s.pos = np.array([[float(x), 0.0, 0.0]])
@@ -95,7 +127,7 @@ def mk_path(sites, maxlen, generated=("sh", 0.0, 0, 0), number=None, tag="old"):
 
 
 def sites(path):
-    return tuple(int(pp.order[0]) for pp in path.phasepoints)
+    return tuple(site_of(pp.order[0]) for pp in path.phasepoints)
 
 
 def snapshot(path):
@@ -130,7 +162,7 @@ class MemLatticeEngine(EngineBase):
         left, _, right = ens_set["interfaces"]
         MemLatticeEngine.counter += 1
         name = f"seg{MemLatticeEngine.counter}{'B' if reverse else 'F'}"
-        x = int(system.order[0])
+        x = site_of(system.order[0])
         t = getattr(system, "t", 0)
         dt = -1 if reverse else 1
         pp = system.copy()
@@ -190,8 +222,10 @@ def ens_set(kind, B, maxlength, move="sh", cap=None, n_jumps=None, allowmaxlengt
     tis = {"maxlength": maxlength, "allowmaxlength": allowmaxlength,
            "lambda_minus_one": lambda_minus_one, "quantis": False, "accept_all": False,
            "zero_momentum": False, "aimless": True}
+    lambda_minus_one = o(lambda_minus_one)
+    tis["lambda_minus_one"] = lambda_minus_one
     if cap is not None:
-        tis["interface_cap"] = cap
+        tis["interface_cap"] = o(cap)
     if n_jumps is not None:
         tis["n_jumps"] = n_jumps
     if kind == "minus":
@@ -268,7 +302,7 @@ class BallisticEngine(EngineBase):
         left, _, right = ens_set["interfaces"]
         self.counter += 1
         name = f"{self.name}{self.counter}{'B' if reverse else 'F'}"
-        x = int(system.order[0])
+        x = site_of(system.order[0])
         v = int(system.v)
         c = int(system.c)
         if reverse != system.vel_rev:
@@ -336,7 +370,7 @@ def ballistic_path(eng, x0, v0, c0, interfaces, maxlen, tag="old"):
             pp.vpot = eng.vtab.get((x, c), 0.0)
             pp.ekin = 0.5
         p.phasepoints.append(pp)
-        if k > 0 and (x < left or x > right):
+        if k > 0 and (o(x) < left or o(x) > right):
             break
         if k > 4 * maxlen + 50:
             break
@@ -349,4 +383,4 @@ def ballistic_path(eng, x0, v0, c0, interfaces, maxlen, tag="old"):
 
 def phys(path):
     """Physical (time-forward) phase points (x, v)."""
-    return tuple((int(pp.order[0]), -pp.v if pp.vel_rev else pp.v, pp.c) for pp in path.phasepoints)
+    return tuple((site_of(pp.order[0]), -pp.v if pp.vel_rev else pp.v, pp.c) for pp in path.phasepoints)
